@@ -137,7 +137,10 @@ def run_pair(I, expr, doc):
     return out
 
 
-def rule_evaluators(progs, tier, name="JQEVAL", floor_share=0.5):
+def rule_evaluators(progs, tier, name="JQEVAL", floor_share=None):
+    if floor_share is None:
+        # measured: 91 % of the quick family is evaluated; a model that stops covering a builtin family shows as a drop
+        floor_share = 0.85 if tier != "thorough" else 0.75
     out = []
     for cfg, P in progs.items():
         res = RuleResult(name, cfg)
